@@ -310,6 +310,11 @@ pub fn eval(case: &str) -> Out {
                 Err((ix, e)) => format!("err {} at={}", berr(&e), ix),
                 Ok(b) => {
                     let order = leaf_order(&b);
+                    // since fix aee9a45 the finished node holds its leaves in insertion (depth-first) order (C15_builder_sound)
+                    if b.is_complete() {
+                        let want = show_list(items.iter().filter_map(|i| match i { Item::Leaf { depth, ver, script } => Some(show_leaf(script, *ver, *depth)), _ => None }).collect());
+                        if order != want { fail.set("F9-leaf-order", "NodeInfo.leaves of the finished builder is not in insertion (depth-first) order".into()); }
+                    }
                     match b.finalize(&secp, p) {
                         Err(e) => format!("err {}", berr(&e)),
                         Ok(info) => {
@@ -378,17 +383,17 @@ pub fn eval(case: &str) -> Out {
             Out { result, pred_fail: fail.0 }
         }
         (Some("finalize-none"), 4) => {
-            // F16 (C10 territory): a builder state that only serde can produce
+            // F16 (repaired by fix c723f02): a builder state that only serde can produce must be refused, not panic
             let p = match xonly(w[2]) { Some(p) => p, None => return bad("key") };
             let n: usize = match w[3].parse() { Ok(n) => n, Err(_) => return bad("n") };
             let json = format!("{{\"branch\":[{}]}}", vec!["null"; n].join(","));
             let b: TaprootBuilder = match serde_json::from_str(&json) { Ok(b) => b, Err(_) => return bad("serde") };
             let result = match std::panic::catch_unwind(|| b.finalize(&secp, p)) {
-                Err(_) => "panic builder-invariant".to_string(),
+                Err(_) => { fail.set("F16-finalize-panic", "finalize panics on a builder state whose last entry is None instead of refusing it".into()); "panic builder-invariant".to_string() }
                 Ok(Err(e)) => format!("err {}", berr(&e)),
                 Ok(Ok(_)) => "ok unexpected".to_string(),
             };
-            Out { result, pred_fail: None }
+            Out { result, pred_fail: fail.0 }
         }
         (Some("combine-chain"), 3) => {
             // NodeInfo::combine applied n times on top of one leaf (the only way to reach TaprootMerkleBranch::push's own depth check)
